@@ -6,6 +6,7 @@ import Driver.Counter
 import Driver.Arms
 import Driver.AllocD
 import Driver.Threads
+import Driver.PanicD
 namespace Driver
 
 def dispatch (line : String) : String :=
@@ -31,6 +32,7 @@ def dispatch (line : String) : String :=
       | "alloc" => handleAlloc args obs
       | "allocinstall" => handleAllocInstall args obs
       | "thr" => handleThr args obs
+      | "pan" => handlePan rest
       | "armrun" => handleArmRun args obs
       | "armcompile" => handleArmCompile args obs
       | _ => bad ("unknown-tag:" ++ tag)
